@@ -246,6 +246,17 @@ func includeHeader(hdr string, signedHdrs []string) bool {
 }
 
 func IsBigDataAction(ctx *fiber.Ctx) bool {
+	// Only object uploads stream their body through the deferred
+	// authentication readers. Bucket level requests spelled with a trailing
+	// slash ("/bucket/") and the object sub-resources whose handlers read the
+	// whole body at once never consume that reader, so they must be
+	// authenticated before the handler runs.
+	if parts := strings.SplitN(ctx.Path(), "/", 3); len(parts) < 3 || parts[2] == "" {
+		return false
+	}
+	if ctx.Request().URI().QueryArgs().Has("retention") || ctx.Request().URI().QueryArgs().Has("legal-hold") {
+		return false
+	}
 	if ctx.Method() == http.MethodPut && len(strings.Split(ctx.Path(), "/")) >= 3 {
 		if !ctx.Request().URI().QueryArgs().Has("tagging") && ctx.Get("X-Amz-Copy-Source") == "" && !ctx.Request().URI().QueryArgs().Has("acl") {
 			return true
